@@ -356,6 +356,12 @@ func foreignRef() map[string]any {
 	return map[string]any{"apiVersion": "v1", "kind": "ConfigMap", "name": "someone-else", "uid": "foreign-uid-0001", "controller": true, "blockOwnerDeletion": true}
 }
 
+// bystanderRef is a plain owner that spells out "controller: false" (as kubectl, Helm or a released
+// package revision leave it); listed BEFORE the controller reference.
+func bystanderRef() map[string]any {
+	return map[string]any{"apiVersion": "v1", "kind": "ConfigMap", "name": "bystander", "uid": "plain-uid-0009", "controller": false}
+}
+
 // plant stores a copy of what the probe created, under a foreign controller reference (or
 // none), with a marker so that it differs from what the controller would write.
 func plant(w *sim.World, created map[string]any, variant string) sim.Key {
@@ -367,6 +373,9 @@ func plant(w *sim.World, created map[string]any, variant string) sim.Key {
 	legit := sim.ControllerOf(created)
 	if variant == "foreign" || variant == "foreign-behind-cache" {
 		md["ownerReferences"] = []any{foreignRef()}
+	}
+	if variant == "foreign-after-plain-owner" {
+		md["ownerReferences"] = []any{bystanderRef(), foreignRef()}
 	}
 	if variant == "foreign-lookalike" {
 		// a different owner of the SAME kind as the legitimate one whose name merely extends it
@@ -507,7 +516,7 @@ func runSite(c *kit.Ctx, s site, round int) {
 	c.Count("probe_created_objects", int64(len(created)))
 	sort.Slice(created, func(i, j int) bool { return sim.KeyOf(created[i]).String() < sim.KeyOf(created[j]).String() })
 	for _, obj := range created {
-		for _, variant := range []string{"foreign", "foreign-lookalike", "foreign-plus-owner", "foreign-bare", "foreign-behind-cache", "uncontrolled"} {
+		for _, variant := range []string{"foreign", "foreign-after-plain-owner", "foreign-lookalike", "foreign-plus-owner", "foreign-bare", "foreign-behind-cache", "uncontrolled"} {
 			k := sim.KeyOf(obj)
 			if (variant == "foreign-lookalike" || variant == "foreign-plus-owner") && sim.ControllerOf(obj) == nil {
 				continue
@@ -679,7 +688,11 @@ func composedSites(c *kit.Ctx, round int) {
 						// the XR controller's cache of composed kinds stays at the state before the takeover
 						lag = -w.RV()
 					}
-					_ = unstructured.SetNestedSlice(u.Object, []any{foreignRef()}, "metadata", "ownerReferences")
+					newRefs := []any{foreignRef()}
+					if round%2 == 1 {
+						newRefs = []any{bystanderRef(), foreignRef()}
+					}
+					_ = unstructured.SetNestedSlice(u.Object, newRefs, "metadata", "ownerReferences")
 					if err := w.Client("someone-else").Update(ctx, u); err != nil {
 						panic(err)
 					}
@@ -823,6 +836,75 @@ func composedMidway(c *kit.Ctx, s site, caseName, mode, what string, w *sim.Worl
 	cached.OnCall, uncached.OnCall = nil, nil
 }
 
+// inactiveRevisionReleasesAgain: an upgrade history. Revision 1 (active) establishes two CRDs, is
+// deactivated and releases them; revision 2 becomes active and takes control; then the INACTIVE
+// revision 1 is reconciled again (every inactive reconcile releases the objects it lists). From
+// revision 1's point of view the CRDs are now controlled by a different owner: it must leave them
+// exactly as they are.
+func inactiveRevisionReleasesAgain(c *kit.Ctx, round int) {
+	caseName := fmt.Sprintf("establisher-inactive-revision-releases-again/r%d", round)
+	if !c.Want(caseName) {
+		return
+	}
+	sfx := fmt.Sprintf("%c%d", 'a'+round%26, round)
+	w := sim.NewWorld(xrk.Scheme(), uint64(c.Seed)*191+uint64(round))
+	w.MustSeed("user", map[string]any{"apiVersion": "pkg.crossplane.io/v1", "kind": "Provider", "metadata": map[string]any{"name": "prov" + sfx}, "spec": map[string]any{"package": "xpkg.example.org/acme/prov:v2"}})
+	p := w.GetObj(sim.Key{Group: "pkg.crossplane.io", Kind: "Provider", Name: "prov" + sfx})
+	mk := func(n int, state string) *pkgv1.ProviderRevision {
+		name := fmt.Sprintf("prov%s-rev%d", sfx, n)
+		w.MustSeed("pkgmgr", map[string]any{"apiVersion": "pkg.crossplane.io/v1", "kind": "ProviderRevision",
+			"metadata": map[string]any{"name": name, "labels": map[string]any{"pkg.crossplane.io/package": "prov" + sfx},
+				"ownerReferences": []any{map[string]any{"apiVersion": "pkg.crossplane.io/v1", "kind": "Provider", "name": "prov" + sfx, "uid": sim.Str(p, "metadata", "uid"), "controller": true, "blockOwnerDeletion": true}}},
+			"spec": map[string]any{"image": fmt.Sprintf("xpkg.example.org/acme/prov:v%d", n), "desiredState": state, "revision": int64(n)}})
+		pr := &pkgv1.ProviderRevision{}
+		if err := runtime.DefaultUnstructuredConverter.FromUnstructured(w.GetObj(sim.Key{Group: "pkg.crossplane.io", Kind: "ProviderRevision", Name: name}), pr); err != nil {
+			panic(err)
+		}
+		return pr
+	}
+	objs := func() []runtime.Object {
+		var out []runtime.Object
+		for _, k := range []string{"Widget", "Gadget"} {
+			out = append(out, &unstructured.Unstructured{Object: map[string]any{"apiVersion": "apiextensions.k8s.io/v1", "kind": "CustomResourceDefinition",
+				"metadata": map[string]any{"name": strings.ToLower(k) + "s.prov" + sfx + ".example.org"},
+				"spec": map[string]any{"group": "prov" + sfx + ".example.org", "scope": "Cluster", "names": map[string]any{"kind": k, "plural": strings.ToLower(k) + "s"},
+					"versions": []any{map[string]any{"name": "v1", "served": true, "storage": true, "schema": map[string]any{"openAPIV3Schema": map[string]any{"type": "object"}}}}}}})
+		}
+		return out
+	}
+	rev1, rev2 := mk(1, "Active"), mk(2, "Inactive")
+	e1 := revision.NewAPIEstablisher(w.Client("revision1"), "crossplane-system", 2)
+	e2 := revision.NewAPIEstablisher(w.Client("revision2"), "crossplane-system", 2)
+	refs, err := e1.Establish(ctx, objs(), rev1, true)
+	if err != nil {
+		c.Violate("harness:initial-establish-failed", caseName, err.Error(), nil)
+		return
+	}
+	rev1.SetObjects(refs)
+	// the package manager flips the two revisions; rev1 releases, rev2 takes control
+	if err := e1.ReleaseObjects(ctx, rev1); err != nil {
+		c.Violate("harness:release-failed", caseName, err.Error(), nil)
+		return
+	}
+	if _, err := e2.Establish(ctx, objs(), rev2, true); err != nil {
+		c.Violate("harness:second-establish-failed", caseName, err.Error(), nil)
+		return
+	}
+	s := site{name: "establisher-inactive-revision-releases-again", actors: map[string]bool{"revision1": true}}
+	for _, r := range refs {
+		pk := sim.Key{Group: "apiextensions.k8s.io", Kind: "CustomResourceDefinition", Name: r.Name}
+		before := w.GetObj(pk)
+		from := w.LogLen()
+		var o outcome
+		// the inactive revision is reconciled again, twice
+		for i := 0; i < 2; i++ {
+			o.errs = append(o.errs, e1.ReleaseObjects(ctx, rev1))
+		}
+		o.errs = append(o.errs, fmt.Errorf("not-required")) // nothing to report: the objects are simply not ours any more
+		judge(c, s, caseName+"/"+r.Name, "foreign", w, pk, before, from, o, map[string]any{"history": "rev1 active -> released; rev2 active; rev1 (inactive) releases again"})
+	}
+}
+
 func main() {
 	c := kit.New("C02", "exploration")
 	c.Rule = "per write site (definition/offered CRDs, package-manager revision, active-revision establisher, RBAC provider roles / binding / XRD roles, XR composer named resource + XR connection secret in both modes) a probe run in a clean world records the objects the real controller creates; for each, a fresh world holds an object of that kind and name under a foreign controller reference / without controller, and the controller runs again; composed resources with generated names are re-parented to a foreign controller after the first composition (still desired / no longer desired, both composers). Names and groups vary with the round. Oracle: the foreign object is byte-identical afterwards (same resourceVersion), no effective write to it in the log, and - when the controller addressed it - an error, a Warning event or Synced=False surfaced. distinct = (site, object, variant, round); non-trivial = the controller issued at least one request addressed to the planted object."
@@ -849,6 +931,9 @@ func main() {
 			}
 			if err := kit.Try(func() { predecessorRevision(c, r) }); err != nil {
 				c.Violate("panic:predecessor-revision", "predecessor-revision", err.Error(), nil)
+			}
+			if err := kit.Try(func() { inactiveRevisionReleasesAgain(c, r) }); err != nil {
+				c.Violate("panic:inactive-revision-releases-again", "establisher-inactive-revision-releases-again", err.Error(), nil)
 			}
 			if err := kit.Try(func() { claimSecretRace(c, r) }); err != nil {
 				c.Violate("panic:claim-secret-race", "claim-secret-race", err.Error(), nil)
